@@ -73,7 +73,7 @@ func (w *smcWorld) now() time.Duration { return time.Since(w.start) }
 func newSmcWorld(e *Env, wd bool) *smcWorld {
 	t := e.T
 	w := &smcWorld{e: e, watchdog: wd, advertised: map[appKey]bool{}}
-	w.sc = newSimConn(e, "cli", drawAddr(t, 50000), drawAddr(t, 3868))
+	w.sc = newSimConn(e, "cli", drawLocalAddr(t, 50000), drawAddr(t, 3868))
 	settings := &sm.Settings{
 		OriginHost:  smcHost,
 		OriginRealm: smcRealm,
@@ -312,8 +312,8 @@ func (w *smcWorld) checkCER(m RefMsg) bool {
 			return fail("host-addresses", "CER Host-IP-Address %v, configured %v", got, w.cfgAddrs)
 		}
 	} else {
-		local := w.sc.LocalAddr().(*net.TCPAddr).IP.String()
-		if !containsStr(got, local) {
+		local := endpointIPs(w.sc.LocalAddr())
+		if !sharesAddr(got, w.sc.LocalAddr()) {
 			return fail("host-addresses/local-endpoint", "no host address configured; CER Host-IP-Address %v does not contain the local endpoint %s", got, local)
 		}
 	}
@@ -753,7 +753,7 @@ func c12Run(e *Env) {
 func (w *smcWorld) redial() *smcWorld {
 	w2 := &smcWorld{e: w.e, cli: w.cli, mach: w.mach, R: w.R, I: w.I, W: w.W, watchdog: w.watchdog, cfgAddrs: w.cfgAddrs, advertised: w.advertised}
 	la := drawAddr(w.e.T, 50001)
-	if la.IP.Equal(w.sc.LocalAddr().(*net.TCPAddr).IP) {
+	if containsStr(endpointIPs(w.sc.LocalAddr()), la.IP.String()) {
 		la = &net.TCPAddr{IP: net.IPv4(10, 77, 0, 9), Port: 50001}
 	}
 	w2.sc = newSimConn(w.e, "cli2", la, w.sc.RemoteAddr())
@@ -1004,7 +1004,13 @@ func c13ClientX(e *Env, forC14 bool, forced *c13Forced) {
 				}
 			case "silent":
 				e.Fault("peer-silent")
-				if r == w.R && !appStalled && len(pending) == 0 && t.Chance(1, 2) {
+				dwaDue := false
+				for _, o := range w.outbox {
+					if strings.HasPrefix(o.what, "dwa") {
+						dwaDue = true // a late answer would start another cycle, whose DWR queues behind the stalled write
+					}
+				}
+				if r == w.R && !appStalled && len(pending) == 0 && !dwaDue && t.Chance(1, 2) {
 					// the peer has also stopped reading: an application write on the same
 					// connection stalls after the watchdog's last transmission
 					appStalled = true
